@@ -682,7 +682,7 @@ pub fn run(o: &Opts) -> Report {
             run_case(&rt, Some(&mut model), &mut rep, &path, &ops, &mut distinct);
         }
     }
-    let (cases, len) = if o.thorough() { (450, 260) } else { (60, 200) };
+    let (cases, len) = if o.thorough() { (1300, 260) } else { (60, 200) };
     for i in 0..cases {
         let l = if i % 10 == 0 { len * 2 } else { rng.gen_range(40, len) };
         let ops = gen_random(&mut rng, l);
